@@ -75,11 +75,28 @@ def specFinal : SpecSt → List Op → SpecSt
   | sp, [] => sp
   | sp, op :: ops => specFinal (specStep sp op) ops
 
-/-- `(tid, ev)` pairs returned by `wait b` in a run. -/
+/-- What one operation's output contributes to "values returned by `wait b`". -/
+def waitedStep (b : Nat) (op : Op) (o : Out) : List (Nat × Event) :=
+  match op, o.res with
+  | .wait b', .got t ev => if b' = b then [(t, ev)] else []
+  | _, _ => []
+
+/-- `(tid, ev)` pairs returned by `wait b` in a run, in order. -/
 def waitedOn (b : Nat) : List Op → List Out → List (Nat × Event)
-  | .wait b' :: ops, ⟨.got t ev, _⟩ :: outs =>
-    if b' = b then (t, ev) :: waitedOn b ops outs else waitedOn b ops outs
-  | _ :: ops, _ :: outs => waitedOn b ops outs
+  | op :: ops, o :: outs => waitedStep b op o ++ waitedOn b ops outs
+  | _, _ => []
+
+/-- What one operation contributes to `specReports b`. -/
+def specDelta (b : Nat) (sp : SpecSt) : Op → List (Nat × Event)
+  | .trigger ev => if reportedTo b ⟨sp.nextT, ev, false, sp.live⟩ then [(sp.nextT, ev)] else []
+  | .triggerNoop ev => if reportedTo b ⟨sp.nextT, ev, true, sp.live⟩ then [(sp.nextT, ev)] else []
+  | _ => []
+
+/-- Outcomes of the trigger calls of a run, in order. -/
+def triggerOuts : List Op → List Out → List Res
+  | .trigger _ :: ops, o :: outs => o.res :: triggerOuts ops outs
+  | .triggerNoop _ :: ops, o :: outs => o.res :: triggerOuts ops outs
+  | _ :: ops, _ :: outs => triggerOuts ops outs
   | _, _ => []
 
 end TV.Barrier
